@@ -27,7 +27,6 @@ TRUSTED_BASE = [
     "Lean 4.33 kernel",
     "hand-written model GraphiqModel/Model/{GraphOps,LC}.lean tied to lc_equivalence_check.py / linalg.py / graph/state.py / "
     "local_cliff_equi_check.py by this correspondence run (differential testing; exhaustive for all ordered pairs n<=4, n<=5 in thorough)",
-    "Van den Nest-Dehaene-De Moor: a valid local symplectic solution Q exists iff the graphs are related by local complementations (cited, not proved)",
     "np.linalg.inv on the unit-triangular 0/1 matrices that occur is exact (the model inverts over GF(2) and checks the product)",
     "_phase_correction is modelled at specification level (unique set of Z gates fixing the signs); canonical_form itself belongs to C05",
     "tensor-product lifting of the tableau semantics (C07) used to interpret the returned gates",
